@@ -117,10 +117,19 @@ func regReset() {
 		validator.RemoveRule(r.Name)
 	}
 	validator.RemoveRule("Custom")
+	validator.RemoveRule("") // entries a faulty registry operation may have left without a name
 	validator.RemoveRule("KnownArgumentNamesWithoutSuggestions")
 	for _, r := range c18Standard {
 		validator.AddRule(r.Name, r.RuleFunc)
 	}
+}
+
+// replaceRuleBounded calls validator.ReplaceRule under a step budget: an edit of a registry of a few dozen rules that
+// takes more than 10⁵ steps (a registry that grows with every call) is stopped before it exhausts memory; callers stop
+// editing when it reports false and let their own oracle judge what the registry has become.
+func replaceRuleBounded(name string, f validator.RuleFunc) bool {
+	r := guarded(100000, 0, func() { validator.ReplaceRule(name, f) })
+	return !r.Panicked
 }
 
 func regKey(st []regEntry) string {
